@@ -91,7 +91,9 @@ func (p *pathRun) noteFits(t *smt.Term, bound *big.Int) {
 	if p.fitsTab == nil {
 		p.fitsTab = map[*smt.Term]*big.Int{}
 	}
-	p.fitsTab[t] = bound
+	if old := p.fitsTab[t]; old == nil || bound.Cmp(old) < 0 {
+		p.fitsTab[t] = bound
+	}
 }
 
 // intToLEBytes writes the low 8*n bits of t little-endian into n byte values.
@@ -394,7 +396,9 @@ func init() {
 		encA := p.encPointBV(p.bt(X), p.bt(Y), dA, tA)
 		h := p.edChallenge(fr, p.bvToLEBytes(rbv, 32), p.bvToLEBytes(encA, 32), a[1])
 		N := c.IntC(co.N)
-		okS := c.And(c.Ge(s, c.IntC64(0)), c.Lt(s, N))
+		// the agl verifier is lax about S: it only requires the top three bits of the last byte
+		// to be clear (S < 2^253), not S < L; the strict check is crypto/ed25519's (below)
+		okS := c.And(c.Ge(s, c.IntC64(0)), c.Lt(s, c.IntC(pow2(253))))
 		eqD := p.congruent(s, c.Add(g.d, c.Mul(h, dA)), N)
 		eqT := c.Eq(c.Mod(c.Add(g.tau, c.Mul(h, tA)), c.IntC64(8)), c.IntC64(0))
 		return normBool(c.And(okS, eqD, eqT))
